@@ -596,10 +596,12 @@ func (d *Driver) Run() int {
 		covers                                                                     map[string]int
 		funcs                                                                      map[string]bool
 		trunc                                                                      map[string]int
+		placeholders                                                               map[string]int
 	}
 	tot.covers = map[string]int{}
 	tot.funcs = map[string]bool{}
 	tot.trunc = map[string]int{}
+	tot.placeholders = map[string]int{}
 	var samples []obligationSample
 	nontrivial := 0
 	for _, r := range results {
@@ -616,6 +618,9 @@ func (d *Driver) Run() int {
 			if !in.H.BudgetIsProperty || !strings.HasPrefix(k, "loop-budget") {
 				inconclusive = append(inconclusive, fmt.Sprintf("%s: unwind: %s (%d paths)", in, k, n))
 			}
+		}
+		for k, n := range r.Stats.Placeholders {
+			tot.placeholders[in.H.Name+": "+k] += n
 		}
 		for k, n := range r.Stats.Truncations {
 			tot.trunc[in.H.Name+": "+k] += n
@@ -824,6 +829,16 @@ func (d *Driver) Run() int {
 		truncList = append(truncList, fmt.Sprintf("%s (%d)", k, n))
 	}
 	sort.Strings(truncList)
+	phList := []string{}
+	for k, n := range tot.placeholders {
+		phList = append(phList, fmt.Sprintf("%s (%d)", k, n))
+	}
+	sort.Strings(phList)
+	if os.Getenv("GOSYM_SHOW_PLACEHOLDERS") != "" {
+		for _, l := range phList {
+			fmt.Println("PLACEHOLDER " + l)
+		}
+	}
 	cov := map[string]interface{}{
 		"evaluations":                       tot.oblig + tot.queries,
 		"distinct_nontrivial":               nontrivial,
@@ -852,6 +867,7 @@ func (d *Driver) Run() int {
 		"bounds":                            boundsTxt,
 		"cover_points":                      tot.covers,
 		"concretisation_truncations":        truncList,
+		"formatted_text_placeholders":       phList,
 		"known_findings_seen":               knownLines,
 		"inconclusive":                      inconclusive,
 		"status":                            status,
